@@ -52,6 +52,7 @@ class Gen:
         self.grouped_names = [n for n in self.names if self.rows[n]["kind"] == "Grouped"]
         self.hits = {}
         self.build = True          # construct the Python objects (False: descriptors only, for wire images)
+        self.oplogs = {}
         self.flag_mode = "mp"      # "mp": M/P overrides; "all": any flag byte consistent with the V bit
         self.override = 0.2
         self.mutate_grouped = False          # apply container operations to built Grouped AVPs (C01)
@@ -210,6 +211,7 @@ class Gen:
         bad = [k for k in kids if isinstance(k, Failed)]
         obj = (bad[0] if bad else construct(lambda: cls(kids))) if self.build else None
         # container operations on the Grouped AVP itself (public API): pop / append / extend / avps setter
+        oplog = []
         if self.build and self.mutate_grouped and obj is not None and not isinstance(obj, Failed) and r.random() < 0.3:
             for _ in range(r.choice([1, 2, 3])):
                 op = r.choice(["pop", "pop", "append", "extend", "setavps"])
@@ -219,6 +221,7 @@ class Gen:
                     key = r.choice(keys)
                     target = obj.__dict__[key]
                     obj.pop(key)
+                    oplog.append("pop %s (position %d of %d)" % (key, [i for i, p in enumerate(pairs) if p[0] is target][0], len(pairs)))
                     pairs = [p for p in pairs if p[0] is not target]
                     self.hit("grouped-op:pop", "grouped-op")
                 elif op in ("append", "extend"):
@@ -231,10 +234,12 @@ class Gen:
                     else:
                         obj.extend([e[0] for e in extra])
                     pairs += extra
+                    oplog.append("%s %d" % (op, len(extra)))
                     self.hit("grouped-op:" + op, "grouped-op")
                 elif op == "setavps" and pairs:
                     r.shuffle(pairs)
                     obj.avps = [p[0] for p in pairs]
+                    oplog.append("setavps %d" % len(pairs))
                     self.hit("grouped-op:setavps", "grouped-op")
         kids = [p[0] for p in pairs]
         ktoks = [t for p in pairs for t in p[1]]
@@ -245,6 +250,8 @@ class Gen:
                 obj.flags = f
             fl = str(f)
         self.hit(name, "Grouped")
+        if oplog and obj is not None and not isinstance(obj, Failed):
+            self.oplogs[id(obj)] = (obj, oplog)          # keeps the object alive: ids are not reused
         return obj, ["G", name, fl, str(len(kids))] + ktoks
 
     def tree(self, depth, name=None):
